@@ -37,6 +37,8 @@ VARIANTS = {
     "eom-buffer=40": dict(eom=dict(custom_buffer_time=40)),
     "eom-buffer=240": dict(eom=dict(custom_buffer_time=240)),  # equal to the derived 2*rise_time
     "eom-beams=RB": dict(eom=dict(controlled_beams=["BLUE", "RED"])),
+    "eom-beams=R": dict(eom=dict(controlled_beams=["RED"])),
+    "eom-limiting=BLUE": dict(eom=dict(limiting_beam="BLUE")),
     "eom-none": dict(eom=None),
     "max_amp=1.2": dict(max_amp=1.2),
     "max_det=0.4": dict(max_det=0.4),
@@ -89,6 +91,10 @@ AUX = [
     ([("config_dmm", "m2", "dmm_0"), ("slm", ["q0"], "dmm_1"), ("declare", "g", "rydberg_global")],
      [("add", A.C52, "g"), ("add_dmm", ["C", 52, -1.5], "dmm_0")]),
     (GLp + [("declare_var", "x", "int"), ("slm", ["q2"])], [("add_v", "x", 52, "g")]),
+    # EOM set point next to the detuning limit: the off-detuning chosen on the NEW device must respect the new limits too
+    (GLp, [("enable_eom", "g", 2.0, -59.5, 0.0, False), ("eom_pulse", "g", 52, 0.0, 0.0, "min-delay", False), ("delay", 52, "g")]),
+    (GLp, [("enable_eom", "g", 2.0, 59.5, 0.0, True), ("eom_pulse", "g", 52, 0.0, 0.0, "min-delay", True), ("modify_eom", "g", 1.0, 59.8, 0.0, True),
+           ("eom_pulse", "g", 52, 0.0, 0.0, "min-delay", True)]),
     # the same DMM id configured twice (reusable devices), before / after the sequence became parametrized
     (GLp + [("declare_var", "x", "int"), ("delay_v", "x", "g"), ("config_dmm", "m2", "dmm_0"), ("config_dmm", "m1", "dmm_0")],
      [("add_dmm", ["C", 52, -1.5], "dmm_0_1"), ("add_dmm", ["C", 100, -0.5], "dmm_0")]),
@@ -201,17 +207,8 @@ def run_case(case):
             diffkey = "+".join(dst) if dst else "from:" + "+".join(src)
             if strict:
                 s0n = snapshot.snap(seq, False)
-                for sx in (s0n, s1):  # idle time may be partitioned differently into consecutive delays (weakest reading)
-                    for c in sx.channels.values():
-                        if c.is_dmm:  # DMM channel names are derived from the device id they were matched to, not user-chosen
-                            c.name = c.ch_id = "dmm"
-                        merged = []
-                        for sl in c.slots:
-                            if merged and sl.kind == "delay" and merged[-1].kind == "delay" and merged[-1].tf == sl.ti:
-                                merged[-1] = snapshot.Slot("delay", merged[-1].ti, sl.tf, sl.targets)
-                            else:
-                                merged.append(sl)
-                        c.slots = merged
+                _strict_norm(s0n)
+                _strict_norm(s1)
                 if s0n.key(ordered_channels=False) != s1.key(ordered_channels=False):
                     d = _diff(s0n, s1)
                     if d and d.startswith("flag:"):
@@ -291,6 +288,36 @@ def run_case(case):
         if s0.key() != s1.key():
             return [(f"C18:switch-register-changed-the-sequence:{kind}:{_diff(s0, s1)}", f"program {pi} {ops}"[:250])]
         return [("@register-switched", "")]
+
+
+def _strict_norm(sx):
+    """Weakest reading of 'identical timeline': idle time may be partitioned differently into consecutive delays / consecutive
+    idle periods at one off-detuning, DMM channel names are derived (not user-chosen), and where inside such an idle period an
+    EOM block formally starts is not observable (drift corrections count from the start of the buffer, not of the block)."""
+    sx.flags["slm_dmm"] = sx.flags["maxdur"] = None
+    # phase references: the current value (what the next pulse will get); earlier values are in the phases of the scheduled pulses
+    for basis, d in sx.basis_ref.items():
+        sx.basis_ref[basis] = {q: (v[0][-1:], v[1][-1:], v[2]) for q, v in d.items()}
+    for c in sx.channels.values():
+        if c.is_dmm:
+            c.name = c.ch_id = "dmm"
+        merged = []
+        for sl in c.slots:
+            if merged and sl.kind == "delay" and merged[-1].kind == "delay" and merged[-1].tf == sl.ti:
+                merged[-1] = snapshot.Slot("delay", merged[-1].ti, sl.tf, sl.targets)
+            elif (merged and sl.kind == "pulse" and sl.pulse.detuned_delay and merged[-1].kind == "pulse"
+                  and merged[-1].pulse.detuned_delay and merged[-1].tf == sl.ti and merged[-1].targets == sl.targets
+                  and abs(merged[-1].pulse.det[0] - sl.pulse.det[0]) < 1e-12 and abs(merged[-1].pulse.phase - sl.pulse.phase) < 1e-12):
+                a = merged[-1]
+                pi_ = snapshot.PulseInfo(np.zeros(sl.tf - a.ti), np.full(sl.tf - a.ti, sl.pulse.det[0]), sl.pulse.phase, sl.pulse.post,
+                                         True, sl.pulse.amp_cls, sl.pulse.det_cls)
+                merged[-1] = snapshot.Slot("pulse", a.ti, sl.tf, sl.targets, pi_, a.in_eom)
+            else:
+                merged.append(sl)
+        c.slots = merged
+        for sl in c.slots:
+            sl.in_eom = False
+        c.eom_blocks = [(b[0], b[1], b[2], None, b[4] is None, b[5]) for b in c.eom_blocks]
 
 
 def _built_differs(seq, new, diffkey, pi):
